@@ -448,12 +448,12 @@ theorem C05_scion_rx_time_within_exchange (d : ScionDgram) (cTx1 cRx : Int) (hle
 
 /-- Hence no datagram makes a basic exchange of the SCION client reach
     `panic("unexpected system clock behavior")` (kernel receive time not before the kernel
-    transmit time; a malformed authenticator option is the separate finding F4). For an
-    interleaved response `t0`, `t3` are the previous exchange's stored stamps, which by the
-    same bound are ordered when they were stored. -/
+    transmit time), and — as repaired — none reaches the panic of `PacketAuthOptMetadata`
+    either: an authenticator option of any length is handled. For an interleaved response
+    `t0`, `t3` are the previous exchange's stored stamps, which by the same bound are ordered
+    when they were stored. -/
 theorem C05_scion_basic_no_panic (cfg : Cfg) (sc : ScionCtx) (prev : Prev) (req : Req) (cTx1 cRx : Int)
-    (d : ScionDgram) (hb : req.interleaved = false) (hle : cTx1 ≤ cRx)
-    (hau : ∀ au, d.authOpt = some au → au.wellFormed = true) :
+    (d : ScionDgram) (hb : req.interleaved = false) (hle : cTx1 ≤ cRx) :
     classifySCION cfg sc prev req cTx1 cRx d ≠ .panic := by
   have hn := ntpStage_basic_no_panic cfg prev req cTx1 (scionRxTime d cTx1 cRx) d.payload hb
     (scionRxTime_within d cTx1 cRx hle).1
@@ -473,14 +473,31 @@ theorem C05_scion_basic_no_panic (cfg : Cfg) (sc : ScionCtx) (prev : Prev) (req 
   · cases hopt : d.authOpt with
     | none => simpa using hn
     | some au =>
-      have hw := hau au hopt
-      simp only [hw, Bool.not_true, Bool.false_eq_true, if_false]
+      dsimp only
       split
+      · simp
       · split
-        · simp
+        · split
+          · simp
+          · exact hn
         · exact hn
-      · exact hn
   · exact hn
+
+/-- The code before the fix (client-side twin of F4b): with a key available, a datagram with
+    the right addresses whose authenticator option data is not 28 bytes long made the client
+    panic — no key is needed to send it (failing input found by the check, sig
+    `C08:client:panic-on-datagram`, stream `e2e:auth:len27`); as repaired it is an
+    authentication failure. -/
+theorem C05_scion_malformed_authenticator_old_counterexample :
+    let req : Req := ⟨false, zero64, zero64, ofTime 4000000000000, 4000000000000⟩
+    let pkt : NtpPkt := ⟨36, 1, req.tx, ofTime 4000000100000, ofTime 4000000200000⟩
+    let d : ScionDgram := ⟨true, [.scion, .e2e, .udp], 160, 56, 1, 2, 3, 4, none, some ⟨false, 0, 0, false⟩,
+      ⟨48, pkt, true, true, true⟩⟩
+    classifySCIONAuthOld ⟨.scion, true, false, true⟩ ⟨1, 2, 3, 4, true⟩ Prev.init req 4000000050000 4000000900000 d
+      = .panic ∧
+    classifySCION ⟨.scion, true, false, true⟩ ⟨1, 2, 3, 4, true⟩ Prev.init req 4000000050000 4000000900000 d
+      = .skip .auth := by
+  decide
 
 /-- The code before the fix: a reply that is genuine except for a timestamp option carrying a
     time one hour before the request makes the client panic (failing input found by the check,
